@@ -130,6 +130,9 @@ class Rational(primitives.Expression):
     def __getinitargs__(self):
         return (self.Numerator, self.Denominator)
 
+    # attribute names matching __getinitargs__ (used for unpickling)
+    init_arg_names = ("Numerator", "Denominator")
+
     def reciprocal(self):
         return Rational(self.Denominator, self.Numerator)
 
